@@ -138,6 +138,60 @@ theorem autotyped_numeric_text_flips (n : Str) (cells : List Cell) (hne : cells 
     (autotyped n .str cells).cat = false ∧ (autotyped n .str cells).cells = cells.map coerce :=
   autotyped_numeric_text n cells hne h
 
+/-! ## Storage layout and chained round trips (round 2) -/
+
+/-- **The round trip depends on the values only, not on how they are stored.**  Two stored
+datasets with the same values — whatever the byte order, strides, C / Fortran order, writeability,
+alignment or text item type of each component — have the same model round trip, lie in the
+quantifier together, and the Spec accepts exactly the same loaded results for both.  (The driver
+runs `roundTripStored` / `specOkStored` on the layout-tagged case the harness built; a real
+exporter whose file depends on the layout therefore fails comparison (a) and, inside the
+quantifier, the Spec.) -/
+theorem layout_irrelevant (fmt : Format) (a b : StoredDataset) (sel : Option (List Bool))
+    (comps : Option (List Nat)) (h : a.values = b.values) :
+    roundTripStored fmt a sel comps = roundTripStored fmt b sel comps ∧
+    inQuantifierStored fmt a sel comps = inQuantifierStored fmt b sel comps ∧
+    inDomainStored fmt a sel comps = inDomainStored fmt b sel comps ∧
+    ∀ out, specOkStored fmt a sel comps out = specOkStored fmt b sel comps out := by
+  simp only [roundTripStored, inQuantifierStored, inDomainStored, specOkStored, h, and_self, implies_true]
+
+/-- Re-storing every component under another layout does not change the values … -/
+theorem relayout_values (f : Layout → Layout) (s : StoredDataset) :
+    (s.relayout f).values = s.values := by
+  simp [StoredDataset.relayout, StoredDataset.values, List.map_map, Function.comp_def]
+
+/-- … so **export ∘ import of the re-stored dataset is accepted by the Spec of the original**, for
+every format, every re-layout `f`, every selection and filter in `P` (gridded FITS: inside
+`blankClause`, as in `export_import_fitsImage_partial`; all other formats: the whole quantifier). -/
+theorem export_import_any_layout (fmt : Format) (s : StoredDataset) (f : Layout → Layout)
+    (sel : Option (List Bool)) (comps : Option (List Nat))
+    (hP : inDomainStored fmt s sel comps = true) :
+    ∃ out, roundTripStored fmt (s.relayout f) sel comps = .ok out ∧
+      specOkStored fmt s sel comps out = true := by
+  simp only [roundTripStored, specOkStored, relayout_values]
+  exact roundTrip_spec fmt s.values sel comps hP
+
+/-- **Chained round trips** (`export A → load → export B → load`, e.g. FITS → HDF5): if the first
+hop is in `P`, it loads to at least one dataset that the Spec accepts, and for *every* dtype kinds
+the first reader may have chosen such that the loaded dataset is again in `P` for `B`, the second
+hop loads (no error) to a result the Spec accepts for that loaded dataset. -/
+theorem export_import_chain (fmtA fmtB : Format) (d : Dataset) (kinds : List Kind)
+    (sel : Option (List Bool)) (comps : Option (List Nat))
+    (hA : inDomain fmtA d none none = true) :
+    ∃ out1, roundTrip fmtA d none none = .ok out1 ∧ specOk fmtA d none none out1 = true ∧
+      ∀ d1 r2, secondHop fmtB out1 kinds sel comps = some (d1, r2) →
+        inDomain fmtB d1 sel comps = true →
+        ∃ out2, r2 = .ok out2 ∧ specOk fmtB d1 sel comps out2 = true := by
+  obtain ⟨out1, h1, hs1⟩ := roundTrip_spec fmtA d none none hA
+  refine ⟨out1, h1, hs1, ?_⟩
+  intro d1 r2 h2 hB
+  cases out1 with
+  | nil => simp [secondHop] at h2
+  | cons ld rest =>
+    simp only [secondHop, Option.some.injEq, Prod.mk.injEq] at h2
+    obtain ⟨rfl, rfl⟩ := h2
+    exact roundTrip_spec fmtB _ sel comps hB
+
 /-! ## Non-vacuity and witnesses -/
 
 /-- a 3-row table: float (with NaN), int32, text; names `x`, `Flux`, `m` -/
@@ -204,6 +258,22 @@ theorem hdf5_zero_fill_ambiguous :
     exportFile .hdf5 ⟨[2, 1], [⟨[105], .int 32, false, [.num 0, .num 5]⟩]⟩ (some [true, true]) none =
     exportFile .hdf5 ⟨[2, 1], [⟨[105], .int 32, false, [.num 7, .num 5]⟩]⟩ (some [false, true]) none := by
   decide +kernel
+
+/-- the table `tbl` stored big-endian / strided / as an object array … -/
+def tblStored : StoredDataset := ⟨[3], (tbl.cols.zip [.swapped, .strided, .object]).map fun p => ⟨p.1, p.2⟩⟩
+
+example : inDomainStored .hdf5 tblStored (some [true, false, true]) none = true := by decide +kernel
+example : (tblStored.relayout fun _ => .fitslike).values.cols = tbl.cols ∧
+    (tblStored.relayout fun _ => .fitslike).cols.map (·.layout) = [.fitslike, .fitslike, .fitslike] := by
+  decide +kernel
+
+/-- a chain in `P` at both hops: `tbl` → FITS table → (int32 stays int32) → HDF5 subset -/
+example : inDomain .fitsTable tbl none none = true ∧
+    (∃ out1 d1 r2, roundTrip .fitsTable tbl none none = .ok out1 ∧
+      secondHop .hdf5 out1 [.float, .int 32, .str] (some [true, false, true]) none = some (d1, r2) ∧
+      inDomain .hdf5 d1 (some [true, false, true]) none = true) := by
+  refine ⟨by decide +kernel, ?_⟩
+  refine ⟨_, _, _, rfl, rfl, by decide +kernel⟩
 
 /-- Every registered exporter the model knows is mapped to a format. -/
 example : knownExporters.length = 7 := by decide
